@@ -986,6 +986,155 @@ variable {C : Type} [Add C] [Sub C] [Mul C] [Neg C]
                 u.add(k, baseline[k]['text'])
     return u
 
+class NpTr:
+    """one element of a vectorised numpy computation -> a Lean term over `Num K` with the platform constants in `c : Consts K`.
+    Fragment: + - * /, unary minus, abs / np.abs, max_abs, comparisons, `|` `&` on comparisons, np.where, names, the constants
+    _EPS, _TINY and the float literals 1.0, 10 and 1.0e-4 (the fields of `Consts`)."""
+
+    CONSTS = {'_EPS': 'c.eps', '_TINY': 'c.tiny'}
+
+    def __init__(self, names):
+        self.names = set(names)
+        self.props = set()          # names bound to propositions
+
+    def num(self, v):
+        if isinstance(v, bool):
+            raise Unsupported('bool literal')
+        if float(v) == 1.0:
+            return 'Num.one'
+        if float(v) == 10.0:
+            return 'c.ten'
+        if float(v) == 1.0e-4:
+            return 'c.small'
+        raise Unsupported('numeric literal %r has no counterpart in Consts' % (v,))
+
+    def e(self, n):
+        if isinstance(n, ast.Constant) and isinstance(n.value, (int, float)):
+            return self.num(n.value)
+        if isinstance(n, ast.Name):
+            if n.id in self.CONSTS:
+                return self.CONSTS[n.id]
+            if n.id in self.names:
+                return n.id
+            raise Unsupported('name ' + n.id)
+        if isinstance(n, ast.UnaryOp) and isinstance(n.op, ast.USub):
+            return '(-%s)' % self.e(n.operand)
+        if isinstance(n, ast.BinOp) and type(n.op) in (ast.Add, ast.Sub, ast.Mult, ast.Div):
+            return '(%s %s %s)' % (self.e(n.left), {ast.Add: '+', ast.Sub: '-', ast.Mult: '*', ast.Div: '/'}[type(n.op)], self.e(n.right))
+        if isinstance(n, ast.BinOp) and type(n.op) in (ast.BitOr, ast.BitAnd):
+            return '(%s %s %s)' % (self.p(n.left), '∨' if isinstance(n.op, ast.BitOr) else '∧', self.p(n.right))
+        if isinstance(n, ast.Call):
+            f = ast.unparse(n.func)
+            if f in ('np.abs', 'abs') and len(n.args) == 1:
+                return '(Num.abs %s)' % self.e(n.args[0])
+            if f == 'max_abs' and len(n.args) == 2:
+                return '(maxAbs %s %s)' % (self.e(n.args[0]), self.e(n.args[1]))
+            if f == 'np.where' and len(n.args) == 3:
+                return '(if %s then %s else %s)' % (self.p(n.args[0]), self.e(n.args[1]), self.e(n.args[2]))
+        if isinstance(n, ast.Compare):
+            return self.p(n)
+        raise Unsupported('numpy expression ' + ast.unparse(n)[:80])
+
+    def p(self, n):
+        if isinstance(n, ast.Compare) and len(n.ops) == 1:
+            op = {ast.Lt: '<', ast.LtE: '≤'}.get(type(n.ops[0]))
+            if op:
+                return '(%s %s %s)' % (self.e(n.left), op, self.e(n.comparators[0]))
+            if isinstance(n.ops[0], (ast.Gt, ast.GtE)):
+                return '(%s %s %s)' % (self.e(n.comparators[0]), '<' if isinstance(n.ops[0], ast.Gt) else '≤', self.e(n.left))
+        if isinstance(n, ast.BinOp) and type(n.op) in (ast.BitOr, ast.BitAnd):
+            return self.e(n)
+        if isinstance(n, ast.Name) and n.id in self.props:
+            return n.id
+        raise Unsupported('condition ' + ast.unparse(n)[:80])
+
+    def is_prop(self, n):
+        return isinstance(n, ast.Compare) or (isinstance(n, ast.BinOp) and type(n.op) in (ast.BitOr, ast.BitAnd))
+
+    def stmt(self, st):
+        """-> list of `let` lines"""
+        if isinstance(st, ast.Assign) and len(st.targets) == 1:
+            t = st.targets[0]
+            if isinstance(t, ast.Name):
+                txt = self.e(st.value)
+                self.names.add(t.id)
+                if self.is_prop(st.value):
+                    self.props.add(t.id)
+                return ['let %s := %s' % (t.id, txt)]
+            if isinstance(t, ast.Tuple) and isinstance(st.value, ast.Tuple) and len(t.elts) == len(st.value.elts):
+                vals = [self.e(v) for v in st.value.elts]            # all right-hand sides first (Python evaluates the tuple first)
+                out = []
+                for nm, v, src in zip(t.elts, vals, st.value.elts):
+                    out.append('let %s := %s' % (nm.id, v))
+                for nm, src in zip(t.elts, st.value.elts):
+                    self.names.add(nm.id)
+                    if self.is_prop(src):
+                        self.props.add(nm.id)
+                # a later right-hand side must not mention an earlier target of the same statement
+                tn = [nm.id for nm in t.elts]
+                for k, src in enumerate(st.value.elts):
+                    if any(isinstance(x, ast.Name) and x.id in tn[:k] for x in ast.walk(src)):
+                        raise Unsupported('tuple assignment reads one of its own targets: ' + ast.unparse(st)[:80])
+                return out
+            # masked assignment  x[cond] = v   ->   let x := if cond then v else x
+            if isinstance(t, ast.Subscript) and isinstance(t.value, ast.Name) and t.value.id in self.names:
+                return ['let %s := if %s then %s else %s' % (t.value.id, self.p(t.slice), self.e(st.value), t.value.id)]
+        raise Unsupported('statement ' + ast.unparse(st)[:80])
+
+
+def gen_dea3(status, baseline):
+    """`extrapolation.dea3`: the elementwise body, statement by statement"""
+    u = Unit('Dea3.lean', '''/- GENERATED by translator/py2lean.py from src/numdifftools/extrapolation.py (one element of the vectorised dea3) — do not edit -/
+import Ndt.Model.Dea3
+namespace Ndt.Gen
+open Ndt
+''')
+    key = 'dea3.elementwise'
+    try:
+        mod = parse('extrapolation.py')
+        f = [n for n in mod.body if isinstance(n, ast.FunctionDef) and n.name == 'dea3'][0]
+        body = [st for st in f.body if not (isinstance(st, ast.Expr) and isinstance(st.value, ast.Constant))]
+        if flat(ast.unparse(body[0])) != 'e_0, e_1, e_2 = np.atleast_1d(v_0, v_1, v_2)':
+            raise Unsupported('dea3 prologue: ' + ast.unparse(body[0])[:80])
+        tr = NpTr(['e_0', 'e_1', 'e_2'])
+        lets = []
+        rest = body[1:]
+        stmts = []
+        for st in rest:
+            if isinstance(st, ast.With):
+                if flat(ast.unparse(st.items[0].context_expr)) != 'warnings.catch_warnings()':
+                    raise Unsupported('with ' + ast.unparse(st.items[0].context_expr)[:60])
+                for inner in st.body:
+                    if isinstance(inner, ast.Expr) and ast.unparse(inner.value).startswith('warnings.simplefilter('):
+                        continue
+                    stmts.append(inner)
+            else:
+                stmts.append(st)
+        ret = None
+        for st in stmts:
+            if isinstance(st, ast.If):
+                # the `symmetric` trimming of the outputs (modelled by hand in dea3Call): pinned text
+                if flat(ast.unparse(st)) != 'if symmetric and len(result) > 1:\nreturn (result[:-1], abserr[1:])':
+                    raise Unsupported('dea3 symmetric branch changed: ' + flat(ast.unparse(st))[:120])
+                continue
+            if isinstance(st, ast.Return):
+                if not (isinstance(st.value, ast.Tuple) and len(st.value.elts) == 2):
+                    raise Unsupported('dea3 return')
+                ret = '(%s, %s)' % (tr.e(st.value.elts[0]), tr.e(st.value.elts[1]))
+                continue
+            lets += tr.stmt(st)
+        if ret is None:
+            raise Unsupported('dea3: no return')
+        text = ('/-- one element of `dea3(v_0, v_1, v_2)`: `(result, abserr)` -/\n'
+                'def dea3_elem {K} [Num K] (c : Consts K) (e_0 e_1 e_2 : K) : K × K :=\n  ' + '\n  '.join(lets + [ret]))
+        u.add(key, text)
+        status[key] = {'ok': True}
+    except (Unsupported, IndexError, KeyError, AttributeError) as ex:
+        status[key] = {'ok': False, 'error': str(ex)}
+        if key in baseline:
+            u.add(key, baseline[key]['text'])
+    return u
+
 
 def gen_ndscipy(status, baseline):
     u = Unit('NdScipy.lean', '''/- GENERATED by translator/py2lean.py from src/numdifftools/nd_scipy.py — do not edit -/
@@ -1079,7 +1228,7 @@ def main(update_baseline=False):
     status = {}
     units = []
     del EXTRA_UNITS[:]
-    for gen in (gen_logrule, gen_steps, gen_guards, gen_bicomplex, gen_ndscipy):
+    for gen in (gen_logrule, gen_steps, gen_guards, gen_bicomplex, gen_dea3, gen_ndscipy):
         try:
             units.append(gen(status, baseline))
         except Exception as ex:     # whole-unit failure (class missing, syntax error ...)
